@@ -51,6 +51,8 @@ R_combine(vv, a, i, b, j) == [vv EXCEPT ![a][i] = [s |-> @.s + vv[b][j].s, c |->
 
 New(a, n)      == G_new(live, v, a, n) /\ v' = R_new(v, a, n) /\ live' = live \cup {a}
 Add(a, it, i)  == G_add(live, v, a, i) /\ v' = R_add(v, keep, a, it, i) /\ UNCHANGED live
+\* an addition that the manager must reject (the value function raises for the item): no effect at all
+AddBad(a, i)   == G_add(live, v, a, i) /\ UNCHANGED <<v, live>>
 Copy(a, b)     == G_copy(live, a, b) /\ v' = R_copy(v, a, b) /\ live' = live \cup {b}
 Sort(a)        == /\ G_sort(live, a)
                   /\ \E new \in { [i \in 1..NB(a) |-> v[a][p[i]]] : p \in Perms(1..NB(a)) } :
